@@ -157,4 +157,298 @@ theorem chain (m k : Nat) (hm0 : m ≠ 0) (hm24 : m < 2 ^ 24) (hk1 : 23 ≤ k) (
     apply Nat.div_eq_of_lt
     omega
 
+/-! ### `x.min(1.0)` by class of `x` -/
+
+theorem fmin_of_nan (x : Nat) (h : isNaN x = true) : fmin x one = one := by
+  unfold fmin; rw [if_pos h]
+
+theorem fmin_of_le_one (x : Nat) (hx : x ≤ one) : fmin x one = x := by
+  have hn : isNaN x = false :=
+    SharedExp.isNaN_of_le x (Nat.le_trans hx (by decide))
+  have hk : key x = (x : Int) := SharedExp.key_of_lt x (Nat.lt_of_le_of_lt hx (by decide))
+  have hk1 : key one = (one : Int) := by decide
+  have hl : flt one x = false := by
+    simp only [flt, hn, show isNaN one = false from by decide, hk, hk1]
+    simp; omega
+  unfold fmin
+  simp [hn, show isNaN one = false from by decide, hl]
+
+theorem fmin_of_negR (x : Nat) (hx : NegR x) : fmin x one = x := by
+  obtain ⟨hn, hneg⟩ := negR_flags x hx
+  have hk : key x ≤ 0 := by
+    unfold key; rw [hneg]; simp only [if_true]; omega
+  have hk1 : key one = (one : Int) := by decide
+  have hl : flt one x = false := by
+    have hone : (0 : Int) < (one : Int) := by decide
+    simp only [flt, hn, show isNaN one = false from by decide, hk1]
+    simp; omega
+  unfold fmin
+  simp [hn, show isNaN one = false from by decide, hl]
+
+theorem fmin_of_ge_one (x : Nat) (h1 : one ≤ x) (h2 : x ≤ posInf) : fmin x one = one := by
+  have hn : isNaN x = false := SharedExp.isNaN_of_le x h2
+  have hk : key x = (x : Int) := SharedExp.key_of_lt x (Nat.lt_of_le_of_lt h2 (by decide))
+  have hk1 : key one = (one : Int) := by decide
+  unfold fmin
+  simp only [hn, show isNaN one = false from by decide, Bool.false_eq_true, if_false]
+  by_cases he : x = one
+  · subst he; simp
+  · have hl : flt one x = true := by
+      simp only [flt, hn, show isNaN one = false from by decide, hk, hk1]
+      simp; omega
+    simp [hl]
+
+/-! ### the widening -/
+
+theorem ofF32_posfin (x : Nat) (hx : x < posInf) :
+    CF64.ofF32 x = CF64.roundPack false (mant x) (expo x) := by
+  obtain ⟨a1, a2, a3⟩ := SharedExp.posfin_flags x hx
+  unfold CF64.ofF32
+  simp [force_eq, a1, a2, a3]
+
+/-- a negative non-NaN `f32` widens to a negative non-NaN `f64` -/
+theorem ofF32_negR (x : Nat) (hx : NegR x) : CF64.NegR (CF64.ofF32 x) := by
+  obtain ⟨hn, hneg⟩ := negR_flags x hx
+  unfold CF64.ofF32
+  simp only [force_eq, hn, hneg, Bool.false_eq_true, if_false, if_true]
+  by_cases hi : isInf x = true
+  · simp only [hi, if_true]
+    exact ⟨by decide, by decide⟩
+  · simp only [hi, Bool.false_eq_true, if_false]
+    exact CF64.roundPack_true_negR _ _
+
+/-- the fields of a positive pattern `x ≤ 1.0`: the value is `mant x · 2^-k ≤ 1` -/
+theorem le_one_fields (x : Nat) (hx : x ≤ one) :
+    mant x < 2 ^ 24 ∧ 23 ≤ (-expo x).toNat ∧ (-expo x).toNat ≤ 149 ∧
+    expo x = -(((-expo x).toNat : Nat) : Int) ∧ mant x ≤ 2 ^ (-expo x).toNat ∧
+    (x ≠ 0 → mant x ≠ 0) := by
+  have hxinf : x < posInf := Nat.lt_of_le_of_lt hx (by decide)
+  have hml := SharedExp.mant_lt x
+  have hXle : expField x ≤ 127 := by
+    rw [SharedExp.expField_eq]; simp only [one] at hx; omega
+  have hsplit := SharedExp.pattern_split x hxinf
+  by_cases hX : 1 ≤ expField x
+  · obtain ⟨m1, m2⟩ := SharedExp.mant_normal x hX
+    refine ⟨hml, by rw [m2]; omega, by rw [m2]; omega, by rw [m2]; omega, ?_, fun _ => by omega⟩
+    by_cases h127 : expField x = 127
+    · rw [h127] at hsplit
+      have hf0 : fracField x = 0 := by simp only [one] at hx; omega
+      rw [m2, h127, m1, hf0]
+      decide
+    · rw [m2]
+      exact Nat.le_trans (Nat.le_of_lt hml) (Nat.pow_le_pow_right (by omega) (by omega))
+  · obtain ⟨m1, m2⟩ := SharedExp.mant_subnormal x (by omega)
+    refine ⟨hml, by rw [m2]; decide, by rw [m2]; decide, by rw [m2]; decide, ?_, ?_⟩
+    · rw [m2]
+      exact Nat.le_trans (Nat.le_of_lt hml) (by decide)
+    · intro h0
+      have : expField x = 0 := by omega
+      rw [this] at hsplit
+      omega
+
+/-! ### `norm` by class of `x` -/
+
+/-- everything that `min` maps to 1.0 — NaN of any payload and sign, `+∞`, every value ≥ 1 —
+gives the largest `norm` -/
+theorem s16Norm_of_fmin_one (x : Nat) (h : fmin x one = one) : s16Norm x = 65534 := by
+  unfold s16Norm
+  rw [h]
+  decide +kernel
+
+/-- negative values, `-0.0` and `-∞` give `norm = 0` -/
+theorem s16Norm_negR (x : Nat) (hx : NegR x) : s16Norm x = 0 := by
+  unfold s16Norm
+  rw [fmin_of_negR x hx]
+  obtain ⟨kf1, _, _, kf4⟩ := CF64.k65534_facts
+  rcases CF64.fadd_neg_half _ (CF64.fmul_neg _ _ (ofF32_negR x hx) kf1 kf4) with h1 | h1
+  · exact CF64.toNatSat_neg _ _ h1
+  · exact CF64.toNatSat_lt_one _ _ (Nat.lt_of_le_of_lt h1 (by decide))
+
+/-- `0 ≤ x ≤ 1`: `norm = ⌊mant x · 65534 / 2^k + 1/2⌋`, no rounding error of the binary64
+evaluation reaches the result -/
+theorem s16Norm_le_one (x : Nat) (hx : x ≤ one) :
+    s16Norm x = (mant x * 65534 + 2 ^ ((-expo x).toNat - 1)) / 2 ^ (-expo x).toNat := by
+  by_cases h0 : x = 0
+  · subst h0; decide +kernel
+  obtain ⟨f1, f2, f3, f4, f5, f6⟩ := le_one_fields x hx
+  unfold s16Norm
+  rw [fmin_of_le_one x hx, ofF32_posfin x (Nat.lt_of_le_of_lt hx (by decide))]
+  generalize (-expo x).toNat = k at *
+  rw [f4]
+  exact chain (mant x) k (f6 h0) f1 f2 f3 f5
+
+/-! ### the specification side: `Quant.sq 16` of the real value -/
+
+open Dds.Quant in
+theorem sq16_ge_one (v : Rat) (h : 1 ≤ v) : sq 16 v = 65534 := by
+  have hc : clamp01 v = ((1 : Nat) : Rat) / ((1 : Nat) : Rat) := by
+    unfold clamp01
+    have h0 : ¬ v < 0 := by grind
+    rw [if_neg h0]
+    by_cases h1 : 1 < v
+    · rw [if_pos h1]; decide +kernel
+    · rw [if_neg h1]
+      have : v = 1 := Rat.le_antisymm (Rat.not_lt.mp h1) h
+      rw [this]; decide +kernel
+  have hq := qL_ratio 65534 1 1 (by decide) (by decide)
+  unfold sq
+  rw [show snormLevels 16 = 65534 from by decide]
+  unfold qL at hq ⊢
+  rw [hc]
+  rw [clamp01_of_mem (by decide +kernel) (by decide +kernel)] at hq
+  rw [hq]; decide +kernel
+
+open Dds.Quant in
+theorem sq16_le_zero (v : Rat) (h : v ≤ 0) : sq 16 v = 0 := by
+  have hc : clamp01 v = ((0 : Nat) : Rat) / ((1 : Nat) : Rat) := by
+    unfold clamp01
+    by_cases h0 : v < 0
+    · rw [if_pos h0]; decide +kernel
+    · rw [if_neg h0]
+      have : v = 0 := Rat.le_antisymm h (Rat.not_lt.mp h0)
+      rw [this]; decide +kernel
+  have hq := qL_ratio 65534 0 1 (by decide) (by decide)
+  unfold sq
+  rw [show snormLevels 16 = 65534 from by decide]
+  unfold qL at hq ⊢
+  rw [hc]
+  rw [clamp01_of_mem (by decide +kernel) (by decide +kernel)] at hq
+  rw [hq]; decide +kernel
+
+theorem pow2_pos (e : Int) : 0 < pow2 e := by
+  unfold pow2
+  split
+  · exact Rat.natCast_pos.mpr (Nat.two_pow_pos _)
+  · rw [Rat.div_def, Rat.one_mul]
+    exact Rat.inv_pos.mpr (Rat.natCast_pos.mpr (Nat.two_pow_pos _))
+
+/-- the magnitude of a finite pattern is a non-negative rational -/
+theorem mag_nonneg (x : Nat) : 0 ≤ (mant x : Rat) * pow2 (expo x) :=
+  Rat.mul_nonneg Rat.natCast_nonneg (Rat.le_of_lt (pow2_pos _))
+
+theorem toRat_negR (x : Nat) (hx : NegR x) (hfin : expField x ≠ 255) : toRat x ≤ 0 := by
+  obtain ⟨_, hneg⟩ := negR_flags x hx
+  have h := mag_nonneg x
+  unfold toRat
+  simp only [beq_iff_eq, hfin, if_false, hneg, if_true]
+  grind
+
+theorem toRat_le_one (x : Nat) (hx : x ≤ one) :
+    toRat x = (mant x : Rat) / ((2 ^ (-expo x).toNat : Nat) : Rat) := by
+  obtain ⟨f1, f2, f3, f4, f5, f6⟩ := le_one_fields x hx
+  obtain ⟨a1, a2, a3⟩ := SharedExp.posfin_flags x (Nat.lt_of_le_of_lt hx (by decide))
+  have hfin : expField x ≠ 255 := by
+    rw [SharedExp.expField_eq]; simp only [one] at hx; omega
+  have hneg : ¬ (expo x ≥ 0) := by omega
+  unfold toRat pow2
+  simp only [beq_iff_eq, hfin, if_false, a3, Bool.false_eq_true, hneg]
+  rw [Rat.div_def, Rat.div_def, Rat.one_mul]
+
+theorem toRat_ge_one (x : Nat) (h1 : one ≤ x) (h2 : x < posInf) : 1 ≤ toRat x := by
+  obtain ⟨a1, a2, a3⟩ := SharedExp.posfin_flags x h2
+  have hX : 127 ≤ expField x := by
+    rw [SharedExp.expField_eq]; simp only [one] at h1; simp only [posInf] at h2; omega
+  have hX2 : expField x ≤ 254 := by
+    rw [SharedExp.expField_eq]; simp only [posInf] at h2; omega
+  obtain ⟨m1, m2⟩ := SharedExp.mant_normal x (by omega)
+  have hm : 2 ^ 23 ≤ mant x := by rw [m1]; simp only [Nat.reducePow]; omega
+  have hfin : expField x ≠ 255 := by omega
+  unfold toRat pow2
+  simp only [beq_iff_eq, hfin, if_false, a3, Bool.false_eq_true]
+  by_cases he : expo x ≥ 0
+  · rw [if_pos he, ← Rat.natCast_mul]
+    have : 1 ≤ mant x * 2 ^ (expo x).toNat :=
+      Nat.le_trans (Nat.le_trans (by decide) hm) (Nat.le_mul_of_pos_right _ (Nat.two_pow_pos _))
+    exact Rat.natCast_le_natCast.mpr this
+  · rw [if_neg he, Rat.div_def, Rat.one_mul, ← Rat.div_def]
+    apply Dds.Quant.le_div_of_mul_le (Rat.natCast_pos.mpr (Nat.two_pow_pos _))
+    rw [Rat.one_mul]
+    apply Rat.natCast_le_natCast.mpr
+    exact Nat.le_trans (Nat.pow_le_pow_right (by omega) (by omega)) hm
+
+/-- integer form of the quantiser on the ratio `m / 2^k` -/
+theorem qRatio_pow (m k : Nat) (hk : 1 ≤ k) :
+    Dds.Quant.qRatio 65534 m (2 ^ k) = (m * 65534 + 2 ^ (k - 1)) / 2 ^ k := by
+  unfold Dds.Quant.qRatio
+  have hkk : 2 ^ k = 2 * 2 ^ (k - 1) := by
+    rw [show k = (k - 1) + 1 by omega, Nat.pow_succ, Nat.mul_comm]; simp
+  have : 2 * m * 65534 + 2 ^ k = 2 * (m * 65534 + 2 ^ (k - 1)) := by
+    rw [hkk, Nat.mul_add, Nat.mul_assoc]
+  rw [this]
+  exact Nat.mul_div_mul_left _ _ (by decide)
+
+/-- **the binary64 evaluation computes the specified quantiser.**  For every binary32 pattern the
+`norm` of `s16::from_uf32` is `Quant.sq 16` = `⌊clamp01(v)·65534 + 1/2⌋` of the real value
+`uvalue x` (NaN ↦ 1 through `min`, `±∞` beyond the clamp). -/
+theorem s16Norm_eq_sq (x : Nat) (hx : x < 2 ^ 32) : s16Norm x = Dds.Quant.sq 16 (uvalue x) := by
+  unfold uvalue
+  by_cases hn : isNaN x = true
+  · rw [if_pos hn, s16Norm_of_fmin_one x (fmin_of_nan x hn), sq16_ge_one _ (by decide)]
+  rw [if_neg hn]
+  have hnn : ¬ (x / 8388608 % 256 = 255 ∧ x % 8388608 ≠ 0) :=
+    fun h => hn ((SharedExp.isNaN_iff x).mpr h)
+  have hinf : isInf x = true ↔ (x / 8388608 % 256 = 255 ∧ x % 8388608 = 0) := by
+    unfold isInf; rw [SharedExp.expField_eq, SharedExp.fracField_eq]; simp
+  have hnegb : isNeg x = true ↔ 2147483648 ≤ x := by unfold isNeg signBit; simp
+  by_cases hs : x < signBit
+  · have hle : x ≤ posInf := by simp only [signBit, posInf] at hs ⊢; omega
+    have hng : ¬ (isNeg x = true) := by rw [hnegb]; simp only [signBit] at hs; omega
+    by_cases hi : isInf x = true
+    · rw [if_pos hi, if_neg hng]
+      have : one ≤ x := by rw [hinf] at hi; simp only [one]; omega
+      rw [s16Norm_of_fmin_one x (fmin_of_ge_one x this hle), sq16_ge_one _ (by decide)]
+    · rw [if_neg hi]
+      have hlt : x < posInf := by rw [hinf] at hi; simp only [posInf] at hle ⊢; omega
+      by_cases h1 : x ≤ one
+      · rw [s16Norm_le_one x h1, toRat_le_one x h1]
+        obtain ⟨f1, f2, f3, f4, f5, f6⟩ := le_one_fields x h1
+        unfold Dds.Quant.sq
+        rw [show Dds.Quant.snormLevels 16 = 65534 from by decide,
+          Dds.Quant.qL_ratio 65534 _ _ (Nat.two_pow_pos _) f5, qRatio_pow _ _ (by omega)]
+      · rw [s16Norm_of_fmin_one x (fmin_of_ge_one x (by omega) hle),
+          sq16_ge_one _ (toRat_ge_one x (by omega) hlt)]
+  · have hN : NegR x := by
+      unfold NegR
+      simp only [signBit, posInf] at hs ⊢
+      omega
+    have hng : isNeg x = true := by rw [hnegb]; simp only [signBit] at hs; omega
+    rw [s16Norm_negR x hN]
+    by_cases hi : isInf x = true
+    · rw [if_pos hi, if_pos hng, sq16_le_zero _ (by decide)]
+    · rw [if_neg hi]
+      have hfin : expField x ≠ 255 := by
+        rw [SharedExp.expField_eq]
+        rw [hinf] at hi
+        omega
+      rw [sq16_le_zero _ (toRat_negR x hN hfin)]
+
+theorem snormFromNorm16_eq (t : Nat) (ht : t ≤ 65534) :
+    snormFromNorm 16 t = some (Dds.Quant.snormOfNorm 16 t) := by
+  unfold snormFromNorm Dds.Quant.snormOfNorm
+  rw [if_pos (by omega)]
+  have : t + 1 + 2 ^ 16 - 2 ^ (16 - 1) = t + 1 + 2 ^ (16 - 1) := by omega
+  rw [this]
+
+/-- no panic, and the encoded SNORM16 code is the specified one: `Quant.sencode 16` -/
+theorem s16_eq_sencode (x : Nat) (hx : x < 2 ^ 32) :
+    s16 x = some (Dds.Quant.sencode 16 (uvalue x)) := by
+  unfold s16 Dds.Quant.sencode
+  rw [s16Norm_eq_sq x hx]
+  exact snormFromNorm16_eq _ (Dds.Quant.qL_le _ _)
+
+/-- the decoded code is within half a SNORM16 step of the clamped input (C12's
+`snorm_half_step` at 16 bits, for the value the binary64 code really computes) -/
+theorem s16_half_step (x : Nat) (hx : x < 2 ^ 32) :
+    ∃ v, s16 x = some v ∧ v < 2 ^ 16 ∧
+      Dds.Quant.sdeq 16 v - Dds.Quant.clamp01 (uvalue x) ≤ 1 / (2 * 65534) ∧
+      -(1 / (2 * 65534)) ≤ Dds.Quant.sdeq 16 v - Dds.Quant.clamp01 (uvalue x) := by
+  refine ⟨_, s16_eq_sencode x hx, ?_, ?_⟩
+  · unfold Dds.Quant.sencode Dds.Quant.snormOfNorm
+    exact Nat.mod_lt _ (by decide)
+  · unfold Dds.Quant.sdeq Dds.Quant.sencode Dds.Quant.sq
+    rw [Dds.Quant.snormNorm_ofNorm 16 _ (by omega) (Dds.Quant.qL_le _ _)]
+    have := Dds.Quant.qL_half_step (Dds.Quant.snormLevels 16) (by decide) (uvalue x)
+    rw [show ((Dds.Quant.snormLevels 16 : Nat) : Rat) = 65534 from by decide] at this
+    exact this
+
 end Dds.EncTotal.QuantBits
